@@ -431,7 +431,7 @@ impl Model {
                 vec![(*d, Some(Den::T(TvlTab::constant(n, *val))))]
             }
             TVar { d, v } if k == Kind::Tdd && vok(*v) => vec![(*d, Some(Den::T(TvlTab::var(n, *v as u32))))],
-            TNot { d, a } if k == Kind::Tdd => vec![(*d, Some(Den::T(self.reg(*a)?.t().not())))],
+            TNot { d, a } | TNotEdgeOwned { d, a } if k == Kind::Tdd => vec![(*d, Some(Den::T(self.reg(*a)?.t().not())))],
             TBin { d, op, a, b } if k == Kind::Tdd => {
                 vec![(*d, Some(Den::T(self.reg(*a)?.t().bin(*op, self.reg(*b)?.t()))))]
             }
@@ -465,7 +465,7 @@ impl Model {
                 }
             }
             Gc | NodeCount { .. } | EvalAll { .. } | SatValid { .. } | PickCube { .. } | PickUniform { .. }
-            | SatCount { .. } => {}
+            | SatCount { .. } | NatOps { .. } => {}
             AddVars { k } => {
                 if self.n + *k as u32 <= crate::tt::MAX_VARS {
                     self.add_vars(*k as u32)
